@@ -123,10 +123,13 @@ pub struct Variant {
     pub recreate: bool,
     /// order in which the builder's timeout options are given (see `spawn_probe_ordered`)
     pub builder_order: u8,
+    /// where no client asks for the owner, the OwningAddr the spawn returned is *dropped* (after
+    /// the clients' addresses have been taken from it) instead of detached
+    pub owner_dropped: bool,
 }
 
 thread_local! {
-    static VARIANT: std::cell::Cell<Variant> = const { std::cell::Cell::new(Variant { generous_timeout: false, recreate: false, builder_order: 0 }) };
+    static VARIANT: std::cell::Cell<Variant> = const { std::cell::Cell::new(Variant { generous_timeout: false, recreate: false, builder_order: 0, owner_dropped: false }) };
 }
 
 /// Runs a case generator with a neutral-configuration variant switched on (see [`Variant`]).
@@ -212,7 +215,11 @@ impl<X> Scene for ProgScene<X> {
             tables.push(h);
         }
         if let Some(o) = owning.take() {
-            drop(o.detach());
+            if self.variant.owner_dropped {
+                drop(o);
+            } else {
+                drop(o.detach());
+            }
         }
         drop(base);
         for (c, (cs, h)) in self.clients.iter().zip(tables).enumerate() {
